@@ -13,6 +13,11 @@ macro_rules! dispatch {
         match $id {
             "C01" => $f::<props::c01::C01>($($args),*),
             "C04" => $f::<props::c04::C04>($($args),*),
+            "C06" => $f::<props::c06::C06>($($args),*),
+            "C07" => $f::<props::c07::C07>($($args),*),
+            "C08" => $f::<props::c08::C08>($($args),*),
+            "C09" => $f::<props::c09::C09>($($args),*),
+            "C11" => $f::<props::c11::C11>($($args),*),
             "C13" => $f::<props::c13::C13>($($args),*),
             "C15" => $f::<props::c15::C15>($($args),*),
             "C16" => $f::<props::c16::C16>($($args),*),
@@ -66,7 +71,22 @@ fn main() {
         println!("INCONCLUSIVE reference tag table disagrees with the crate: {e}");
         std::process::exit(2);
     }
-    let code = match args.get(1).map(|s| s.as_str()) {
+    let code = match engine::panics::catch(|| real_main(&args)) {
+        Ok(c) => c,
+        Err(p) => {
+            println!("INCONCLUSIVE harness panic: {p}");
+            2
+        }
+    };
+    // remove this process's scratch directory (workers share the parent's)
+    if !matches!(args.get(1).map(|s| s.as_str()), Some("worker") | Some("build-bytes")) {
+        let _ = std::fs::remove_dir_all(engine::worker::scratch_dir());
+    }
+    std::process::exit(code);
+}
+
+fn real_main(args: &[String]) -> i32 {
+    match args.get(1).map(|s| s.as_str()) {
         Some("run") => {
             let id = args.get(2).expect("property id");
             let tier = tier_of(args.get(3));
@@ -77,6 +97,7 @@ fn main() {
             let path = std::path::PathBuf::from(args.get(3).expect("replay file"));
             dispatch!(id.as_str(), replay_prop, Tier::Quick, &path)
         }
+        Some("build-bytes") => props::c11::build_bytes_main(),
         Some("worker") => {
             let id = args.get(2).expect("property id");
             let tier = tier_of(args.get(3));
@@ -86,10 +107,5 @@ fn main() {
             eprintln!("usage: vcheck run <Cxx> [quick|thorough] | replay <Cxx> <file> | worker <Cxx> <tier>");
             2
         }
-    };
-    // remove this process's scratch directory (workers share the parent's)
-    if args.get(1).map(|s| s.as_str()) != Some("worker") {
-        let _ = std::fs::remove_dir_all(engine::worker::scratch_dir());
     }
-    std::process::exit(code);
 }
